@@ -117,7 +117,7 @@ def run_case(prog):
     for a in _walk(prog):
         if a["a"] == "onexc":
             hids.append(a["i"])
-    executed = [h for h in hids if ("A", h) in model.log]
+    executed = ([0] if prog.get("outside_handler") else []) + [h for h in hids if ("A", h) in model.log]
     out_index = next(i for i, e in enumerate(obs["shared"]) if e[0] in OUTCOMES)
     for j, h in enumerate(executed):
         want = sum(1 for r in user_raises if r["handlers"] > j)
@@ -128,6 +128,15 @@ def run_case(prog):
                 j, len(calls), want, [r["kind"] for r in user_raises])))
         if any(c[2] is not None and c[2] > out_index for c in calls):
             vs.append(V("onException", "after-outcome", "a handler was called after the outcome had been reported"))
+    # a handler registered on the instance from outside keeps being called when the instance is run again
+    if prog.get("outside_handler") and not vs:
+        first = len([c for c in obs["live"].handler_calls if c[0] == 0])
+        del obs["live"].handler_calls[:]
+        del obs["live"].log[:]
+        obs2 = R.run_program(prog, "ext", case=obs["case"], live=obs["live"])
+        second = len([c for c in obs["live"].handler_calls if c[0] == 0])
+        if second != first:
+            vs.append(V("onException", "rerun-call-count", "handler registered before run(): %d calls in the first run, %d in the second" % (first, second)))
     tb = sum(1 for g, ex in items if g["type"].startswith("traceback"))
     kinds = {g["type"] for g, ex in items}
     gen_names = {g["base"] for g, ex in items}
